@@ -224,10 +224,18 @@ def build_py(spec, relabel=None):
 				n.demand_source = DemandSource(type='P', mean=rd['mean']) if rd['type'] == 'P' else (
 					DemandSource(type='UD', lo=rd['lo'], hi=rd['hi']) if rd['type'] == 'UD' else
 					DemandSource(type='N', mean=rd['mean'], standard_deviation=rd['sd'], round_to_int=True))
-		if nd.get('hfn'):
-			n.local_holding_cost_function = (lambda cs: (lambda x: sum(c * x ** k for k, c in enumerate(cs))))([float(F(c)) for c in nd['hfn']])
-		if nd.get('pfn'):
-			n.stockout_cost_function = (lambda cs: (lambda x: sum(c * x ** k for k, c in enumerate(cs))))([float(F(c)) for c in nd['pfn']])
+		# cost functions: on the node; in product-level networks on the product, in a node-level dict keyed by product, or on the node
+		# (the place is a function of the label, so that a replay builds the same network)
+		for key_, attr_ in (('hfn', 'local_holding_cost_function'), ('pfn', 'stockout_cost_function')):
+			if nd.get(key_):
+				fn_ = (lambda cs: (lambda x: sum(c * x ** k for k, c in enumerate(cs))))([float(F(c)) for c in nd[key_]])
+				place = (l + len(spec['labels'])) % 3 if prodlevel else 2
+				if place == 0:
+					setattr(prods[l], attr_, fn_)
+				elif place == 1:
+					setattr(n, attr_, {prods[l].index: fn_})
+				else:
+					setattr(n, attr_, fn_)
 		if nd['dis'] is None and nd.get('none_objects'):
 			n.disruption_process = None
 		if nd['dis'] is not None:
@@ -248,7 +256,7 @@ def build_py(spec, relabel=None):
 
 def attr_holder(spec, node, attr=None):
 	"""The object that carries the attributes of `node` in this spec: the node itself, or its explicit product (attr_level 'product').
-	The order capacity, the disruption process and cost functions always stay on the node."""
+	The order capacity and the disruption process always stay on the node (cost functions: see build_py())."""
 	if spec.get('attr_level') == 'product' and attr not in ('order_capacity',):
 		return node.products[0]
 	return node
